@@ -53,17 +53,20 @@ Definition has_var (vs : list pkgvar) (p n : string) : bool :=
 (* the operations of the footprint table (C20Model.api without its arguments) *)
 Inductive api_kind :=
 | KDecode | KDecodeSR | KInfo | KEncode | KEncodeSW | KSamples | KEncrypt | KDecrypt | KDecryptInit | KInitProtect
-| KDecryptWith | KEncryptWith | KToByteStream | KToNaluSample | KSetBoxDecoder | KRemoveBoxDecoder | KTouch.
+| KDecryptWith | KEncryptWith | KToByteStream | KToNaluSample | KSetBoxDecoder | KRemoveBoxDecoder | KTouch
+| KDecodeLazy | KReadData.  (* lazy-mdat branch of mp4/mdat.go: DecodeFile(WithDecodeMode(DecModeLazyMdat)), MdatBox.ReadData *)
 
 Definition all_kinds : list api_kind :=
   [KDecode; KDecodeSR; KInfo; KEncode; KEncodeSW; KSamples; KEncrypt; KDecrypt; KDecryptInit; KInitProtect;
-   KDecryptWith; KEncryptWith; KToByteStream; KToNaluSample; KSetBoxDecoder; KRemoveBoxDecoder; KTouch].
+   KDecryptWith; KEncryptWith; KToByteStream; KToNaluSample; KSetBoxDecoder; KRemoveBoxDecoder; KTouch;
+   KDecodeLazy; KReadData].
 
 Definition kind_idx (k : api_kind) : nat :=
   match k with
   | KDecode => 0 | KDecodeSR => 1 | KInfo => 2 | KEncode => 3 | KEncodeSW => 4 | KSamples => 5 | KEncrypt => 6
   | KDecrypt => 7 | KDecryptInit => 8 | KInitProtect => 9 | KDecryptWith => 10 | KEncryptWith => 11
   | KToByteStream => 12 | KToNaluSample => 13 | KSetBoxDecoder => 14 | KRemoveBoxDecoder => 15 | KTouch => 16
+  | KDecodeLazy => 17 | KReadData => 18
   end.
 Definition kind_eqb (a b : api_kind) : bool := Nat.eqb (kind_idx a) (kind_idx b).
 
